@@ -266,6 +266,7 @@ let () =
   let tainted : bool array = Array.make 8 false in     (* an injected panic happened in this cache: recorded sizes may lag behind values *)
   let reqs : Z.t array = Array.make 8 Z.zero in
   let cfg_cap : Z.t ref = ref Z.zero in
+  let cfg_max : Z.t ref = ref Z.zero in
   let pending : (int * string list * string) option ref = ref None in
   let trace = ref (-1) and step = ref 0 and total_steps = ref 0 and fails = ref 0 in
   let dropped_ever : (string, unit) Hashtbl.t = Hashtbl.create 1024 in
@@ -286,7 +287,7 @@ let () =
         let slot = int_of_string slot in
         if slot = 0 then begin incr trace; step := 0; Hashtbl.reset dropped_ever; Hashtbl.reset returned_ever;
           Array.fill slots 0 8 None end;
-        e := n es; vsz := n vss; cfg_pending := Some slot; cfg_cap := Z.of_string _cap;
+        e := n es; vsz := n vss; cfg_pending := Some slot; cfg_cap := Z.of_string _cap; cfg_max := Z.of_string _mx;
         (* 8th field (optional): which instantiation of the key / value types ran: d = has a Drop impl, p = plain, f = default hasher *)
         let ty = (match split ' ' line with _ :: _ :: _ :: _ :: _ :: _ :: _ :: _ :: t :: _ -> t | _ -> "dd") in
         kdrop := (ty <> "pd"); vdrop := (ty <> "dp");
@@ -305,10 +306,27 @@ let () =
         cfg_pending := None;
         let o = parse_obs !e line in
         (* construction: with_capacity_and_hasher *)
-        let mx = o.st.maxs in
         let okc = (o.st.ents = []) && (Z.equal (z_of_n o.st.cur) Z.zero) in
         tally "new" okc;
-        ignore mx;
+        (* the constructors against the model's new_cache: empty, counter 0, the requested limit, and the table a request for
+           `cap` entries yields (capacity >= cap, smallest table: with_capacity(n) takes n insertions without growing) *)
+        (let bad = ref [] in
+         let chk0 name ok = tally name ok; if not ok then bad := name :: !bad in
+         chk0 "ents" (o.st.ents = []); chk0 "keyset" (o.st.ents = []);
+         chk0 "cur" (Z.equal (z_of_n o.st.cur) Z.zero); chk0 "mon_c02" (Z.equal (z_of_n o.st.cur) Z.zero);
+         chk0 "max" (Z.equal (z_of_n o.st.maxs) !cfg_max);
+         (match new_cache !e (n_of_z !cfg_max) (n_of_z !cfg_cap) with
+          | Some m ->
+            chk0 "cap" (Z.equal (z_of_n (capacity m.tb)) (z_of_n o.cap) && Z.equal (z_of_n m.tb.nb) (z_of_n o.st.tb.nb));
+            chk0 "mon_c13" (Z.geq (z_of_n o.cap) !cfg_cap)
+          | None -> ());
+         if !bad <> [] then begin
+           incr fails;
+           if !fails <= 200 then
+             Printf.printf "FAIL trace=%d step=%d line=%d comps=%s\n  op:   OP %d new %s %s\n  pre:  ||0|%s|%s|0\n  impl: %s\n  model: a new cache is empty, its counter 0, its limit the requested one, its table the smallest holding the requested capacity\n"
+               !trace 0 !lineno (String.concat "," (List.rev !bad)) slot (Z.to_string !cfg_max) (Z.to_string !cfg_cap) (Z.to_string !cfg_max) (Z.to_string !cfg_cap)
+               (if String.length line > 400 then String.sub line 0 400 ^ "..." else line)
+         end);
         peaks.(slot) <- 0; reqs.(slot) <- !cfg_cap; tainted.(slot) <- false;
         slots.(slot) <- Some o
       | None ->
